@@ -177,16 +177,18 @@ def sweep(ctx, n):
 
             rB, rH = build(1.0)
             degs = np.array([{"Dipole": 3, "Circle": 1, "Polyline": 1}.get(c_, 0) for c_ in (c1, c2)], dtype=float)
-            for k in rng.sample(decades, 2):
-                s_ = 10.0**k
+            # powers of two: scaling commutes exactly with every IEEE operation, so ill-conditioned closed forms (CylinderSegment: 2e-9 at a
+            # DECIMAL factor of 1e6 in a thorough run, from the rounding of the factor itself) cannot blur the comparison
+            for k in rng.sample([-33, -30, -20, -10, 10, 20, 30], 2):
+                s_ = 2.0**k
                 B, H = build(s_)
                 done += 1
                 f_ = (s_ ** degs)[:, None, None, None, None]
                 err = max(float(np.max(np.abs(B * f_ - rB)) / np.max(np.abs(rB))), float(np.max(np.abs(H * f_ - rH)) / np.max(np.abs(rH))))
                 worst["posed"] = max(worst.get("posed", 0.0), err if np.isfinite(err) else 1e300)
-                if not err < 1e-9:
-                    fails.append({"key": f"unit-scale:posed:1e{k}", "desc": f"an arrangement of {c1} + {c2} placed by position / move / rotate-about-anchor / collection rotation and read by a turned sensor "
-                                  f"changes with the length unit (scale 1e{k}, rel. err {err:.2g})", "replay": {"classes": [c1, c2], "scale": s_, "rel_err": err}})
+                if not err < 1e-10:
+                    fails.append({"key": f"unit-scale:posed:2^{k}", "desc": f"an arrangement of {c1} + {c2} placed by position / move / rotate-about-anchor / collection rotation and read by a turned sensor "
+                                  f"changes with the length unit (scale 2^{k}, rel. err {err:.2g})", "replay": {"classes": [c1, c2], "scale": s_, "rel_err": err}})
     # proportionality to the excitation through the attribute views: after ANY assignment to magnetization / polarization — also one
     # that ended in an exception because the user turned warnings into errors (|M| < 2000 A/m triggers a deprecation warning) — the
     # fields are those of the excitation the object reports, i.e. those of a fresh body with that polarization
